@@ -80,23 +80,82 @@ class add_missing_cands_c:
     (non-empty) ranking"""
     params = dict(profile=Profile)
     returns = Profile
-    forall = dict(k=Seq(CSet))
+    forall = dict(k=Seq(CSet), sv=Seq(Real), x=Str)
     locals = dict(new_ballots=Seq(Ballot, "list"), candidates=CSet)
 
     def raises_TypeError(profile):
         return not all_ranked(profile.ballots, len(profile.ballots))
 
-    def ensures(profile, result, k):
+    def ensures(profile, result, k, sv, x):
         return (implies(len(profile.candidates) > 0, frozenset(result.candidates) == frozenset(profile.candidates))
+                and distinct(result.candidates, len(result.candidates))
                 and wrank(result.ballots, len(result.ballots), k)
-                == wrank(amc_prefix(profile.ballots, len(profile.ballots), frozenset(profile.candidates)), len(profile.ballots), k))
+                == wrank(amc_prefix(profile.ballots, len(profile.ballots), frozenset(profile.candidates)), len(profile.ballots), k)
+                and wpts(result.ballots, len(result.ballots), sv, x)
+                == wpts(amc_prefix(profile.ballots, len(profile.ballots), frozenset(profile.candidates)), len(profile.ballots), sv, x)
+                and implies(all_rk_ok(profile.ballots, len(profile.ballots), frozenset(profile.candidates)),
+                            all_rk_ok(result.ballots, len(result.ballots), frozenset(profile.candidates))))
 
     def invariant_0(profile, new_ballots, candidates, _k):
         return (len(new_ballots) == len(profile.ballots) and all_ranked(profile.ballots, _k)
                 and new_ballots[:_k] == list(amc_prefix(profile.ballots, _k, candidates)))
 
     def hint_return(profile, candidates):
-        return amc_prefix_len(profile.ballots, len(profile.ballots), candidates)
+        return amc_prefix_len(profile.ballots, len(profile.ballots), candidates) and amc_prefix_ok(profile.ballots, len(profile.ballots), candidates)
 
     def hint_raise_TypeError(profile, _k):
         return all_ranked_prefix(profile.ballots, _k + 1, len(profile.ballots))
+
+
+@contract("utils.py", "score_profile_from_rankings", props=("C04",), when=("Profile", "Seq", "Bool"), unfold=3, reveal=("pts", "rk_ok"))
+class score_from_rankings:
+    """exact mode (to_float=False, vector of exact numbers): ValueError iff the vector has a negative entry or increases; TypeError
+    iff some ballot has no (non-empty) ranking; otherwise the keys are the profile's candidates and every candidate's score is the
+    sum over the ballots of weight x the points of its position -- a position of t tied candidates starting at place a gives each
+    of them the average of the (zero-padded) vector's entries a..a+t-1 -- on the ballots completed by add_missing_cands (the
+    unlisted candidates tied in one last position).  Requires listed candidates only on the ballots and no empty position."""
+    params = dict(profile=Profile, score_vector=Seq(Real), to_float=Bool)
+    returns = Dict(Real)
+    forall = dict(x=Str)
+    locals = dict(scores=Dict(Real), current_ind=Int, local_score_vector=Seq(Real))
+
+    def requires(profile, score_vector, to_float):
+        return (not to_float and len(profile.candidates) > 0 and distinct(profile.candidates, len(profile.candidates))
+                # ranked ballots are well-formed: non-empty positions, listed candidates only (else the real code raises TypeError / KeyError)
+                and implies(all_ranked(profile.ballots, len(profile.ballots)),
+                            all_rk_ok(profile.ballots, len(profile.ballots), frozenset(profile.candidates))))
+
+    def raises_ValueError(profile, score_vector, to_float):
+        return not vec_ok(score_vector, len(score_vector))
+
+    def raises_TypeError(profile, score_vector, to_float):
+        return vec_ok(score_vector, len(score_vector)) and not all_ranked(profile.ballots, len(profile.ballots))
+
+    def ensures(profile, score_vector, to_float, result, x):
+        return (frozenset(result.keys()) == frozenset(profile.candidates)
+                and implies(x in profile.candidates,
+                            result[x] == wpts(amc_prefix(profile.ballots, len(profile.ballots), frozenset(profile.candidates)), len(profile.ballots),
+                                              padded(score_vector, len(profile.candidates)), x)))
+
+    def invariant_0(profile, score_vector, scores, x, _k):
+        # here `profile` is the completed profile and `score_vector` the zero-padded vector (both names are re-bound by the code)
+        return (frozenset(scores.keys()) == frozenset(profile.candidates)
+                and implies(x in profile.candidates, scores[x] == wpts(profile.ballots, _k, score_vector, x)))
+
+    def hint_body_0(profile, _k):
+        return all_rk_ok_nth(profile.ballots, len(profile.ballots), frozenset(profile.candidates), _k)
+
+    def invariant_1(profile, score_vector, scores, ballot, current_ind, x, _k0, _k):
+        return (frozenset(scores.keys()) == frozenset(profile.candidates) and current_ind == count(ballot.ranking, _k)
+                and current_ind >= 0
+                and implies(x in profile.candidates,
+                            scores[x] == wpts(profile.ballots, _k0, score_vector, x) + wpos(ballot.ranking, _k, score_vector, x, ballot.weight)))
+
+    def hint_body_1(profile, ballot, _k):
+        return npos_listed_nth(ballot.ranking, len(ballot.ranking), frozenset(profile.candidates), _k)
+
+    def hint_inv_1(score_vector, local_score_vector, position_size, _pre_current_ind):
+        return alloc_unfold(score_vector, _pre_current_ind, position_size, local_score_vector)
+
+    def hint_inv_0(score_vector, ballot, x):
+        return wpos_linear(ballot.ranking, len(ballot.ranking), score_vector, x, ballot.weight)
